@@ -30,9 +30,14 @@ FOCUS_ALL = FOCUS_EL + ("reactivex/scheduler/newthreadscheduler.py", "reactivex/
 EL_INVS = ["TypeOK", "Serial", "OneThread", "Fifo", "DueOrder", "NotEarly", "CancelledNeverRuns",
            "NoRunAfterDisposeReturned", "RefusedOnlyDisposed", "ThreadForPending"]
 EL_TRACE_CONSTS = dict(Clients={0, 1, 2, 3}, Loops=set(range(11, 20)), Items=set(range(1, 7)), ExitModes={True, False},
-                       MaxT=100000, MaxCalls=0, RelD={0}, AbsT={0}, InnerCalls=False)
+                       MaxT=2000000000, MaxCalls=0, RelD={0}, AbsT={0}, InnerCalls=False)
 TK = 9            # the time-keeper thread: sleeps to the horizon so that the controlled clock can advance
 NAMES = {"main": 0, "T1": 1, "T2": 2, "T3": 3, "TK": TK}
+
+
+def US(seconds: float) -> int:
+    """seconds -> integer microseconds (trace time unit)"""
+    return int(round(float(seconds) * 1000000))
 
 
 def thid(name: str) -> int:
@@ -158,11 +163,9 @@ class Rig:
         self.ds.trace.append({"e": "cfg", "th": 0, "t": 0, "exit": bool(exit_if_empty), "kind": kind})
 
     def clk(self) -> int:
-        c = self.ds.clock
-        r = int(round(c))
-        if abs(c - r) > 1e-9:
-            raise RuntimeError(f"non-integral controlled clock {c!r}")
-        return r
+        """the controlled clock in MICROSECONDS (the resolution of the library's own datetime clock): every time in a trace is an
+        exact integer, whatever fractions of a second the code under test chooses to wait"""
+        return US(self.ds.clock)
 
     def log(self, **ev):
         t = self.ds.me()
@@ -213,7 +216,7 @@ class Rig:
             return
         i = op[1]
         d = op[2] if len(op) > 2 else 0
-        self.log(e="call", op=k, item=i, d=d)
+        self.log(e="call", op=k, item=i, d=US(d))
         res = "ok"
         try:
             if k == "imm":
@@ -261,7 +264,7 @@ def run_scenario(sc: Dict[str, Any], choose, max_steps: int = 6000):
     ds = fastsched.run_execution(build, choose, focus=FOCUS_ALL if sc["kind"] != "eventloop" else FOCUS_EL, max_steps=max_steps,
                                  reuse_threads=True)     # the schedulers under test keep no thread-local state
     tr = norm_trace(list(ds.trace))
-    last_t = int(round(ds.clock))
+    last_t = US(ds.clock)
     if ds.deadlocked:
         tr.append({"e": "deadlock", "th": 0, "t": last_t})
     elif ds.step_limit_hit:
@@ -350,7 +353,7 @@ def el_scenarios(tier: str) -> List[Dict[str, Any]]:
 
 TS_INVS = ["TypeOK", "NotEarly", "CancelledBeforeDueNeverRuns", "AtMostOnce"]
 TS_TRACE_CONSTS = dict(Threads={0, 1, 2, 3} | set(range(11, 20)), Clients={0}, Workers={0}, Items=set(range(1, 7)),
-                       MaxT=100000, MaxCalls=0, RelD={0}, AbsT={0})
+                       MaxT=2000000000, MaxCalls=0, RelD={0}, AbsT={0})
 
 
 def timer_scenarios(tier: str) -> List[Dict[str, Any]]:
@@ -819,7 +822,7 @@ def periodic_traces(kind: str = "eventloop", period: int = 2, nticks: int = 3, d
     `horizon` (default period * (nticks + 1)).
 
     Returns one dict per DISTINCT outcome:
-      ticks        [(clock, state_in), ...] in invocation order
+      ticks        [(clock in seconds, state_in), ...] in invocation order (events carry integer microseconds in `t`)
       tick_threads thread id per tick (11.. = threads started by the library)
       sched_ret_t / dispose_call_t / dispose_ret_t   clocks of the client's calls (None when absent)
       raised       invocation index at which the action raised (None)
@@ -851,7 +854,7 @@ def periodic_traces(kind: str = "eventloop", period: int = 2, nticks: int = 3, d
                 d = rig.S.schedule_periodic(float(period), action, 0)
                 rig.log(e="ret", op="periodic")
                 if dispose_at is not None:
-                    shims.sleep(max(0, dispose_at - rig.clk()))
+                    shims.sleep(max(0.0, dispose_at - ds.clock))
                     rig.log(e="call", op="dispose")
                     d.dispose()
                     rig.log(e="ret", op="dispose")
@@ -866,17 +869,17 @@ def periodic_traces(kind: str = "eventloop", period: int = 2, nticks: int = 3, d
             tr = list(ds.trace)
 
             def first(pred):
-                return next((ev["t"] for ev in tr if pred(ev)), None)
+                return next((ev["t"] / 1e6 for ev in tr if pred(ev)), None)
             out = {
                 "kind": kind, "period": period,
-                "ticks": [(ev["t"], ev["state"]) for ev in tr if ev["e"] == "tick"],
+                "ticks": [(ev["t"] / 1e6, ev["state"]) for ev in tr if ev["e"] == "tick"],
                 "tick_threads": [ev["th"] for ev in tr if ev["e"] == "tick"],
                 "sched_ret_t": first(lambda ev: ev["e"] == "ret" and ev.get("op") == "periodic"),
                 "dispose_call_t": first(lambda ev: ev["e"] == "call" and ev.get("op") == "dispose"),
                 "dispose_ret_t": first(lambda ev: ev["e"] == "ret" and ev.get("op") == "dispose"),
                 "raised": next((ev["k"] for ev in tr if ev["e"] == "raise"), None),
                 "thread_exc": [repr(t.exc)[:120] for t in ds.threads if t.exc is not None],
-                "deadlocked": ds.deadlocked, "steplimit": ds.step_limit_hit, "final_clock": int(round(ds.clock)),
+                "deadlocked": ds.deadlocked, "steplimit": ds.step_limit_hit, "final_clock": ds.clock,
                 "events": tr,
             }
             key = json.dumps(out, sort_keys=True, default=str)
@@ -924,10 +927,11 @@ def impl_trace_check(ck, rows, cap: int = 1500) -> None:
     if not traces:
         return
     nitems = max([1] + [ev["item"] for tr in traces for ev in tr if ev.get("item")])
-    maxt = max(ev["t"] for tr in traces for ev in tr)
     loops = max([11] + [ev["th"] for tr in traces for ev in tr if ev.get("th", 0) > 10])
+    rel = {max(0, ev["d"]) for tr in traces for ev in tr if ev["e"] == "call" and ev["op"] == "rel"} | {0}
+    abs_ = {ev["d"] for tr in traces for ev in tr if ev["e"] == "call" and ev["op"] == "abs"} | {0}
     consts = dict(Clients={1, 2, 3, 4}, Loops=set(range(11, loops + 1)), Items=set(range(1, nitems + 1)), ExitModes={True, False},
-                  MaxT=0, MaxCalls=1000, RelD=set(range(0, maxt + 1)), AbsT=set(range(0, maxt + 1)))
+                  MaxT=0, MaxCalls=1000, RelD=rel, AbsT=abs_)
     rejected, ress = validate_parallel("EventLoopImplTrace", consts, traces, IMPL_INVS, parts=2)
     for r in ress:
         ck.add_tlc(r, f"recorded executions matched against the PlusCal model ({len(traces)} traces)")
